@@ -21,6 +21,7 @@ type Promise struct {
 
 	// execution control
 	cutParent *Promise
+	cutBy     *Promise // the cut that took the place of this promise on the stack, if any.
 	repeat    bool
 	recover   func(error) *Promise
 }
@@ -100,7 +101,15 @@ func (p *Promise) Force(ctx context.Context) (ok bool, err error) {
 
 			// If cut, we eliminate other possibilities.
 			if p.cutParent != nil {
-				stack.popUntil(p.cutParent)
+				// If an earlier cut has already removed the parent, we cut back to that cut which took its place.
+				parent := p.cutParent
+				for parent.cutBy != nil {
+					parent = parent.cutBy
+				}
+				stack.popUntil(parent)
+				if parent != &dummyCutParent {
+					parent.cutBy = p
+				}
 				p.cutParent = nil // we don't have to do this again when we revisit.
 			}
 
